@@ -78,7 +78,7 @@ cpdef bint check_working_hours_fast(
 
     # Check cross-midnight from previous day
     if check_cross_midnight:
-        prev_weekday = (weekday - 1) % 7
+        prev_weekday = (weekday + 6) % 7  # not (weekday - 1) % 7: C remainder is negative for Monday under cdivision
         if prev_weekday in hours_dict:
             intervals = hours_dict[prev_weekday]
             for i in range(len(intervals)):
